@@ -10,7 +10,10 @@
             compartment" rule, to_dict and hence the reported order depend on
      flow   set of <<src, dst, kind>>, dst = 0 is the output; kind 1 = a rate symbol
             (K_src_dst, or the quotient CL_src/V_src towards the output), kind 2 =
-            the nonlinear rate VM_src_dst / (KM_src_dst + A_src(t))
+            the nonlinear rate VM_src_dst / (KM_src_dst + A_src(t)), kind 3 = a rate
+            that is a SUM of two terms (KA_src_dst + KB_src_dst, (Q1_src + Q2_src)/V_src
+            towards the output); in matrix entries and equations a sum contributes its
+            two parts 31 and 32 as separate terms
      doses  per compartment the STORED tuple of doses (1 = Bolus admid 1,
             2 = Infusion admid 2, 3 = Bolus admid 2); Compartment.doses is the view
             with infusions first
@@ -244,7 +247,9 @@ OrdersAfterSubs == {OrderOf(SelectSeq(ins, LAMBDA a : a \notin SubsChanged) \o p
 \* its flow; every flow has its own rate expression) resp. <<sign, src, dst, kind, amount>>; the zero-order
 \* input of compartment c is the term <<1, c, c, 0, 0>>
 Neg(T) == {<<0 - t[1], t[2], t[3], t[4]>> : t \in T}
-RateT(a, b) == IF Rate(a, b) = 0 THEN {} ELSE {<<1, a, b, Rate(a, b)>>}
+Parts(k) == IF k = 3 THEN {31, 32} ELSE {k}
+Expanded(F) == {<<f[1], f[2], p>> : <<f, p>> \in {x \in F \X {1, 2, 31, 32} : x[2] \in Parts(x[1][3])}}
+RateT(a, b) == IF Rate(a, b) = 0 THEN {} ELSE {<<1, a, b, p>> : p \in Parts(Rate(a, b))}
 \* compartmental_matrix, transcribed by position: f[j, i] = rate(i -> j); f[i, i] = -(sum of rates out of i) - outrate
 MatrixOf(o) == [r \in 1..Len(o) |-> [c \in 1..Len(o) |->
                   IF r # c THEN RateT(o[c], o[r])
@@ -255,12 +260,13 @@ EqsFromMatrix(o) == LET M == MatrixOf(o) IN
     [p \in 1..Len(o) |-> UNION {{<<t[1], t[2], t[3], t[4], o[c]>> : t \in M[p][c]} : c \in 1..Len(o)}
                          \cup (IF InputsOf(o)[p] # 0 THEN {<<1, o[p], o[p], 0, 0>>} ELSE {})]
 \* reference: the net rate of change of compartment a = inflows - outflows - output + input
-EqsRef(a) == {<<1, f[1], f[2], f[3], f[1]>> : f \in {x \in flow : x[2] = a}}
-             \cup {<<0 - 1, f[1], f[2], f[3], f[1]>> : f \in {x \in flow : x[1] = a}}
+EqsRef(a) == {<<1, f[1], f[2], f[3], f[1]>> : f \in {x \in Expanded(flow) : x[2] = a}}
+             \cup {<<0 - 1, f[1], f[2], f[3], f[1]>> : f \in {x \in Expanded(flow) : x[1] = a}}
              \cup (IF inp[a] # 0 THEN {<<1, a, a, 0, 0>>} ELSE {})
 
 \* to_compartmental_system(names, eqs), transcribed on term sets: a positive term with its negative twin in
-\* another row is a flow between the two compartments; remaining negative terms form the output rate,
+\* another row is a flow between the two compartments (the terms of one pair of compartments add up to its
+\* rate -- a rate that is a sum comes back part by part); remaining negative terms form the output rate,
 \* remaining positive terms the zero-order input
 FromEqs(o, E) ==
     LET rows == 1..Len(o)
@@ -290,7 +296,7 @@ MassBalance == LET M == MatrixOf(Order) IN \A c \in 1..Len(Order) :
                      /\ {t \in neg : <<1, t[2], t[3], t[4]>> \notin pos} = Neg(RateT(Order[c], 0))
 \* the equations determine the graph
 RoundTrip == LET r == FromEqs(Order, EqsFromMatrix(Order))
-             IN r.flow = flow /\ r.inputs = {a \in Comps : inp[a] # 0}
+             IN r.flow = Expanded(flow) /\ r.inputs = {a \in Comps : inp[a] # 0}
 \* the order depends on the node order only through the choice of the central compartment
 OrderDependsOnCentralOnly == \A q \in Perms(Comps) : CentralOf(q) = CentralOf(ins) => OrderOf(q) = Order
 \* ... and not at all when at most one (non-special) compartment has an output flow
